@@ -112,8 +112,9 @@ fn pool_version(path: &std::path::Path) -> Option<i64> {
 }
 
 fn write_db(path: &std::path::Path, variant: Variant, rows: &[Row]) -> Result<(), String> {
-    let _ = std::fs::remove_file(path);
-    let _ = std::fs::remove_file(path.with_extension("sqlite-journal"));
+    for ext in ["sqlite", "sqlite-journal", "sqlite-wal", "sqlite-shm"] {
+        let _ = std::fs::remove_file(path.with_extension(ext));
+    }
     let conn = rusqlite::Connection::open(path).map_err(|e| e.to_string())?;
     let with_options = !matches!(variant, Variant::UnversionedV0 | Variant::VersionedV0);
     let extra = if matches!(variant, Variant::Newer(_)) { ", vendor_class BLOB" } else { "" };
@@ -157,7 +158,22 @@ fn write_db(path: &std::path::Path, variant: Variant, rows: &[Row]) -> Result<()
     conn.close().map_err(|e| e.1.to_string())
 }
 
-fn case(leg: &mut Leg, r: &mut Rng, case_seed: u64, scratch: &std::path::Path, tag: &str) {
+/// The schema version the tree under test writes for a brand-new database (1 on the pinned tree).  "Newer" and "recorded
+/// after a successful open" are relative to it: a tree that knows version 2 is entitled to open a version-2 file.
+fn current_version(scratch: &std::path::Path, tag: &str) -> Option<i64> {
+    let path = scratch.join(format!("{}-fresh.sqlite", tag));
+    let _ = std::fs::remove_file(&path);
+    let v = match guard::guard(|| pool::Pool::verif_open(&path).map(|_| ())) {
+        Ok(Ok(())) => pool_version(&path),
+        _ => None,
+    };
+    for ext in ["sqlite", "sqlite-journal", "sqlite-wal", "sqlite-shm"] {
+        let _ = std::fs::remove_file(path.with_extension(ext));
+    }
+    v
+}
+
+fn case(leg: &mut Leg, r: &mut Rng, case_seed: u64, scratch: &std::path::Path, tag: &str, cur: i64) {
     leg.eval();
     let replay = json!({"engine": "c18-schema", "case_seed": case_seed});
     let variant = match r.below(8) {
@@ -165,7 +181,7 @@ fn case(leg: &mut Leg, r: &mut Rng, case_seed: u64, scratch: &std::path::Path, t
         2 | 3 => Variant::VersionedV0,
         4 => Variant::V1,
         5 => Variant::V1ForeignKey,
-        _ => Variant::Newer(*r.pick(&[2i64, 3, 7, 100, 65_536, i64::from(u32::MAX), i64::MAX])),
+        _ => Variant::Newer(*r.pick(&[cur + 1, cur + 2, cur + 6, 100 + cur, 65_536, i64::from(u32::MAX), i64::MAX])),
     };
     let with_options = matches!(variant, Variant::V1 | Variant::V1ForeignKey | Variant::Newer(_));
     let t = now();
@@ -296,8 +312,8 @@ fn case(leg: &mut Leg, r: &mut Rng, case_seed: u64, scratch: &std::path::Path, t
         }
         Err(e) => leg.violation("C18/schema/file-unreadable-after-open", e, replay.clone()),
     }
-    if pool_version(&path) != Some(1) {
-        leg.violation("C18/schema/version-not-recorded", format!("{}: schema_version says pool = {:?} after a successful open", desc, pool_version(&path)), replay.clone());
+    if pool_version(&path) != Some(cur) {
+        leg.violation("C18/schema/version-not-recorded", format!("{}: schema_version says pool = {:?} after a successful open, a new database gets {}", desc, pool_version(&path), cur), replay.clone());
     }
     // ---- open again (an upgrade must not be attempted twice), then serve
     let mut p = match guard::guard(|| pool::Pool::verif_open(&path).map_err(|e| e.to_string())) {
@@ -380,7 +396,7 @@ pub fn run(seed: u64, thorough: bool, shards: u64, scratch: &std::path::Path) ->
     let mut total = Leg::new(
         "c18-schema-inproc",
         "C18",
-        "lease databases written by the harness in plain SQL (original unversioned schema, version 0, version 1, version 1 with another module's row, versions newer than 1) holding 0..40 arbitrary rows (expired and running, extreme timestamps, 1..255-octet client identifiers, NULL hardware addresses), opened through Pool::verif_open: older and current databases must open, list exactly the written leases (address, client, start, expiry) through get_leases and in the file, record version 1, open a second time, give every holder of a running lease that address again and never give a running lease to a newcomer; newer databases must be refused and a full dump of the file (schema objects and all rows) must be identical afterwards; distinct = (schema variant, row count class)",
+        "lease databases written by the harness in plain SQL (original unversioned schema, version 0, version 1, version 1 with another module's row, versions newer than the one a brand-new database gets) holding 0..40 arbitrary rows (expired and running, extreme timestamps, 1..255-octet client identifiers, NULL hardware addresses), opened through Pool::verif_open: older and current databases must open, list exactly the written leases (address, client, start, expiry) through get_leases and in the file, record the version a brand-new database gets, open a second time, give every holder of a running lease that address again and never give a running lease to a newcomer; newer databases must be refused and a full dump of the file (schema objects and all rows) must be identical afterwards; distinct = (schema variant, row count class)",
     );
     total.floor = 200;
     let n: u64 = if thorough { 40_000 } else { 1_600 };
@@ -389,10 +405,19 @@ pub fn run(seed: u64, thorough: bool, shards: u64, scratch: &std::path::Path) ->
         let mut leg = total.child();
         let scratch = scratch.to_path_buf();
         handles.push(std::thread::spawn(move || {
+            let tag = format!("s{}", shard);
+            let cur = match current_version(&scratch, &tag) {
+                Some(v) => v,
+                None => {
+                    leg.inconclusive("cannot create a fresh lease database to learn the current schema version");
+                    return leg;
+                }
+            };
+            leg.max("schema_version_of_a_new_database", cur as u64);
             for i in 0..n / shards {
                 let case_seed = seed.wrapping_mul(1_000_003).wrapping_add(shard * 9_000_011 + i);
                 let mut r = Rng::new(case_seed);
-                case(&mut leg, &mut r, case_seed, &scratch, &format!("s{}", shard));
+                case(&mut leg, &mut r, case_seed, &scratch, &tag, cur);
             }
             leg
         }));
@@ -410,6 +435,7 @@ pub fn replay(v: &serde_json::Value, scratch: &std::path::Path) -> Leg {
     let mut leg = Leg::new("c18-schema-replay", "C18", "replay of one recorded case");
     let cs = v["case_seed"].as_u64().unwrap_or(0);
     let mut r = Rng::new(cs);
-    case(&mut leg, &mut r, cs, scratch, "replay");
+    let cur = current_version(scratch, "replay").unwrap_or(1);
+    case(&mut leg, &mut r, cs, scratch, "replay", cur);
     leg
 }
